@@ -47,10 +47,10 @@ def run(ctx):
         else:
             got = value_of_run(ri)
             if got is None or (want is not None and got != want):
-                ctx.fail('oracle', r, impl=ri[:300], model=None, expect=want, note=f'one-literal program {vlib.unesc(r[3])!r} on {r[2]} does not evaluate to what it spells')
+                ctx.fail('oracle', r, impl=ri[:300], model=None, expect=want, note=f'literal program {vlib.unesc(r[3])!r} on {r[2]} does not evaluate to what it spells')
     ctx.oblige('suite LIT.number+chars+bytes+symbol (implementation = Lean literal model)', 'suite', dis == 0 and drv_ok, f'{dis} disagreement(s)')
     ctx.rule = ('LIT rows (the literal parsers directly, both stores) and RUN rows (the literal as a one-literal program through lex, parse, build, execute on SimpleGarnishData and BasicGarnishData): boundary and random non-negative i32 in every radix 2..36 with random `_` placement, '
-                'random finite floats in positional shortest form, all strings up to length 3 (quick) / 4 (thorough) over {a, ", \\\\, newline, tab, é, €, 😀} in 1-, 3- and 4-quote forms with the three escaping strategies, random longer ones, all byte vectors up to length 2 in numeric form, quoted byte lists incl. multi-byte characters, symbols; '
+                'random finite floats in positional shortest form, all strings up to length 3 (quick) / 4 (thorough) over {a, ", \\\\, newline, tab, é, €, 😀} in 1-, 3- and 4-quote forms with the three escaping strategies, random longer ones, all byte vectors up to length 2 in numeric form, quoted byte lists incl. multi-byte characters, symbols; two or three literals of equal magnitude but different type in one program (9, 9.0; "a", \'a\'; 016_ff, 255, 255.0) so that interning in a shared data object cannot substitute one for another; '
                 'each checked against the value the spelling functions (mirrors of Spec/Spell.lean) say it denotes, and the parsers against the Lean model; distinct = distinct (suite, kind/store, text).')
     ctx.suites = {'LIT+RUN': len(rows), 'kinds': kinds}
     for r in rows[:: max(1, len(rows) // 6)][:6]:
